@@ -249,7 +249,13 @@ func (p *parser) parseExpression(rbp int) Node {
 	}
 
 	t := p.token
-	p.advance(false)
+
+	// A token that opens an operand (a bracket, a brace, a unary
+	// minus or a pipe) is followed by the start of that operand,
+	// so a forward slash there begins a regular expression. After
+	// any other token an operand has just been completed and a
+	// forward slash is the division operator.
+	p.advance(opensOperand(t.Type))
 
 	nud := p.lookupNud(t.Type)
 	if nud == nil {
@@ -278,6 +284,17 @@ func (p *parser) parseExpression(rbp int) Node {
 	}
 
 	return lhs
+}
+
+// opensOperand reports whether a token in the prefix position
+// is followed by the first token of an operand.
+func opensOperand(tt tokenType) bool {
+	switch tt {
+	case typeBracketOpen, typeBraceOpen, typeParenOpen, typeMinus, typePipe:
+		return true
+	default:
+		return false
+	}
 }
 
 // advance requests the next token from the lexer and updates
